@@ -4,8 +4,7 @@
    (a) the per-FILE annotation view of autoescaping: every expression tag of a file
        is annotated with that file's escaping function when the file is loaded, and
        substitution of includes / blocks / inheritance never looks at any setting;
-   (b) the observable-level check used by the correspondence: the output is cut at
-       sentinel bytes the generator puts around expression tags.
+   (the observable-level sentinel oracle of the correspondence is harness/props/c20.py py_check).
    Definitions only. *)
 From Coq Require Import List NArith Arith Bool String.
 Import ListNotations.
@@ -79,53 +78,3 @@ Fixpoint aresolve (fuel : nat) (ld : loadfn) (nb : nbmap) (ns : list anode) : gr
       end
   end.
 
-(* ---------- (b) sentinel-delimited contributions in the output ----------
-   byte 1 ... byte 2 : a tag whose defining file escapes with xhtml_escape
-   byte 3 ... byte 4 : a raw tag / a tag of a file with autoescape None *)
-Inductive sstate := SOut | SEsc (acc : list N) | SRaw (acc : list N).
-
-Fixpoint segments (st : sstate) (out : list N) : option (list (bool * list N)) :=
-  match out with
-  | [] => match st with SOut => Some [] | _ => None end
-  | c :: r =>
-      match st with
-      | SOut =>
-          if c =? 1 then segments (SEsc []) r
-          else if c =? 3 then segments (SRaw []) r
-          else if (c =? 2) || (c =? 4) then None
-          else segments SOut r
-      | SEsc acc =>
-          if c =? 2 then option_map (cons (true, rev acc)) (segments SOut r)
-          else if (c =? 1) || (c =? 3) || (c =? 4) then None
-          else segments (SEsc (c :: acc)) r
-      | SRaw acc =>
-          if c =? 4 then option_map (cons (false, rev acc)) (segments SOut r)
-          else if (c =? 1) || (c =? 2) || (c =? 3) then None
-          else segments (SRaw (c :: acc)) r
-      end
-  end.
-
-(* values an expression tag can see: the keyword arguments and what iterating them yields *)
-Definition iter_or_nil (v : value) : list value :=
-  match iter_items v with XOk l => l | XErr _ => [] end.
-Definition candidates (env : list (text * value)) : list value :=
-  let vs := map snd env in vs ++ flat_map iter_or_nil vs.
-
-Definition raw_bytes (v : value) : option (list N) :=
-  match to_utf8 v with XOk b => Some b | XErr _ => None end.
-Definition escaped_bytes (v : value) : option (list N) :=
-  match to_utf8 v with
-  | XOk b => match c_callfn (s2l "xhtml_escape") b with XOk o => Some o | XErr _ => None end
-  | XErr _ => None
-  end.
-
-Definition beqb (a b : list N) : bool := list_eqb N.eqb a b.
-Definition mem_opt (x : list N) (l : list (option (list N))) : bool :=
-  existsb (fun o => match o with Some b => beqb x b | None => false end) l.
-
-Definition dangerous (c : N) : bool := (c =? 60) || (c =? 62) || (c =? 34) || (c =? 39).
-
-Definition seg_ok (cands : list value) (s : bool * list N) : bool :=
-  let '(escaped, b) := s in
-  if escaped then mem_opt b (map escaped_bytes cands) && negb (existsb dangerous b)
-  else mem_opt b (map raw_bytes cands).
